@@ -87,6 +87,14 @@ def run(tier, seed):
         mode = i % 3
         prd = list(lab) if mode == 0 else [(x if rngk.random() < 0.7 else rngk.randrange(K)) for x in lab] if mode == 1 else [rngk.randrange(K) for _ in lab]
         big.append({"lab": lab, "prd": prd, "k": K, "dtype": ("int8", "uint8")[i] if i < 2 else ("uint8", "int8", "int16", "int32", "int64", "list", "uint16")[i % 7]})
+    # ... and many samples in few classes: a count is a count, also beyond 255 per (true, predicted) pair
+    for i in range(10 if tier == "thorough" else 5):
+        K = (2, 3, 2, 4, 3)[i % 5]
+        n_ = (520, 1050, 700, 1400, 900)[i % 5]
+        lab = list(range(K)) + [rngk.randrange(K) for _ in range(n_ - K)]
+        rngk.shuffle(lab)
+        prd = list(lab) if i % 2 == 0 else [(x if rngk.random() < 0.9 else rngk.randrange(K)) for x in lab]
+        big.append({"lab": lab, "prd": prd, "k": K, "dtype": ("int64", "list", "uint8", "int32", "int16")[i % 5]})
     pth = H.write_json(os.path.join(H.subdir("c20"), "big.json"), [{"lab": t["lab"], "prd": t["prd"], "k": t["k"]} for t in big])
     resb = H.run_tlc("MeasuresTrace", "MeasuresTrace.cfg", workers=1, env={"TRACE_FILE": pth}, timeout=1200, heap="4g", tag="mtrace")
     exp = {}
@@ -95,7 +103,7 @@ def run(tier, seed):
             exp[p[1]] = p
     if len(exp) != len(big):
         raise H.MachineryError("MeasuresTrace exported %d of %d traces\n%s" % (len(exp), len(big), resb.out[-1500:]))
-    rep.add_tlc("MeasuresTrace (%d vectors, K up to 130)" % len(big), resb, kind="trace")
+    rep.add_tlc("MeasuresTrace (%d vectors, K up to 130, N up to 1400)" % len(big), resb, kind="trace")
     for tid, t in enumerate(big, 1):
         _, _, indom, cm, rec, pur = exp[tid]
         if not indom:
